@@ -1012,6 +1012,26 @@ func (e *Enc) evalCall(n *SCall, ctx *SpecCtx) (SV, error) {
 			c = e.callsComp(e.resolveCalleeName(name))
 		}
 		return SV{T: e.get(ctx.cur, c), Sort: "Int"}, nil
+	case "passed":
+		// passed(f, i): set of values passed as argument i to callback f (Array sort); use as passed(f, i)[x]
+		name := e.resolveCalleeName(n.Args[0].String())
+		idx := 0
+		if len(n.Args) > 1 {
+			if lit, ok := n.Args[1].(*SLit); ok {
+				fmt.Sscanf(lit.Val, "%d", &idx)
+			}
+		}
+		c := e.callGhost(fmt.Sprintf("passed%d_", idx), n.Args[0].String())
+		if c == nil {
+			return SV{}, fmt.Errorf("passed(%s, %d): no such callback call in this function", name, idx)
+		}
+		return SV{T: e.get(ctx.cur, c), Sort: c.Sort}, nil
+	case "alltrue":
+		c := e.callGhost("alltrue_", n.Args[0].String())
+		if c == nil {
+			return SV{}, fmt.Errorf("alltrue(%s): no boolean callback call in this function", n.Args[0])
+		}
+		return SV{T: e.get(ctx.cur, c), Sort: "Bool"}, nil
 	case "lastret", "lastarg", "firstret":
 		// lastret(f[, i]) / lastarg(f, i): value returned by / passed to the most recent call of f
 		name := e.resolveCalleeName(n.Args[0].String())
